@@ -354,9 +354,10 @@ class Gen(object):
                     if a[0] not in order:
                         order.append(a[0])
                 allocs = [a for rp in order for a in allocs if a[0] == rp]
-            if cur is not None:
+            if cur is not None and rng.random() < 0.8:
                 project, user, ctype = cur['project'], cur['user'], cur['ctype'] or rng.choice(CTYPES)
             else:
+                # a new consumer, or an existing one handed to another project / user / type by the reshape
                 project, user, ctype = rng.choice(PROJECTS), rng.choice(USERS), rng.choice(CTYPES)
             cs.append({'uuid': c, 'project': project, 'user': user, 'ctype': ctype if mv >= 38 else None, 'gen': gen,
                        'allocs': allocs})
